@@ -72,7 +72,14 @@ def shards(tier):
                 if tier != 'thorough' and n >= 3 and ir in QUICK_SKIP_AT_3:
                     continue
                 out.append({'seq': ''.join(t), 'ir': ir})
+    # the upper end of the quantifier: a 10-residue peptide (sites up to index 9, up to 7 eligible sites, max_mods up to 4)
+    for ir in LONG_IR:
+        out.append({'seq': LONG_SEQ, 'ir': ir})
     return out
+
+
+LONG_SEQ = 'PEKPEKPEKP'
+LONG_IR = [1, 2, 5, 8, 9, 11, 14, 16]
 
 
 def gen(shard, tier):
@@ -83,6 +90,11 @@ def gen(shard, tier):
     slots = ['n', 'c'] + list(range(n)) + [f'{i}+' for i in range(n)]
     if tier != 'thorough' and n >= 3:
         slots = ['n', 0, n - 1, f'{n - 1}+']
+    if seq == LONG_SEQ:
+        for pre in ([], ['n'], [n - 1], [2, f'{n - 1}+']):
+            for nt, ct in ((0, 0), (1, 0), (0, 4)):
+                yield {'seq': seq, 'pre': list(pre), 'ir': shard['ir'], 'nt': nt, 'ct': ct}, len(pre) + 1, True
+        return
     for k in range(0, (d['premod_slots'] if n <= 2 else 1) + 1):   # two pre-modified slots up to length 2
         for pre in itertools.combinations(slots, k):
             for nt, ct in (TERM_PAIRS if tier == 'thorough' else TERM_PAIRS_QUICK):
